@@ -14,6 +14,9 @@ thread_local! {
     static SHARED_APX: AspartixReader = AspartixReader::default();
     static READS: std::cell::Cell<usize> = const { std::cell::Cell::new(0) };
 }
+fn use_shared_sink() -> bool {
+    READS.with(|c| c.get() % 3 == 0)
+}
 fn use_shared() -> bool {
     READS.with(|c| {
         c.set(c.get() + 1);
@@ -244,9 +247,32 @@ fn argstr_events() -> Vec<String> {
 }
 
 /// response writers (C14): the bytes written for an extension / a status, tokenised
+/// a sink that accepts at most `chunk` bytes per `write` call (0 = everything): the `Write` contract allows short writes, a writer of
+/// this crate must produce the same bytes whatever the sink accepts at a time
+pub struct Sink {
+    pub buf: Vec<u8>,
+    pub chunk: usize,
+}
+impl Sink {
+    pub fn new(chunk: usize) -> Self {
+        Sink { buf: vec![], chunk }
+    }
+}
+impl std::io::Write for Sink {
+    fn write(&mut self, b: &[u8]) -> std::io::Result<usize> {
+        let k = if self.chunk == 0 { b.len() } else { b.len().min(self.chunk) };
+        self.buf.extend_from_slice(&b[..k]);
+        Ok(k)
+    }
+    fn flush(&mut self) -> std::io::Result<()> {
+        Ok(())
+    }
+}
+
 fn resp_events(rng: &mut StdRng, n: usize) -> Vec<String> {
     let mut v = vec![];
     for i in 0..n {
+        let chunk = [0usize, 0, 1, 3, 7][i % 5];
         // mostly small extensions; every 50th one is large (several KiB of text: buffering boundaries of the writers)
         let big = i % 50 == 49;
         let usize_n = if big { rng.gen_range(600..3000) } else { 8 };
@@ -265,9 +291,9 @@ fn resp_events(rng: &mut StdRng, n: usize) -> Vec<String> {
         // ICCMA writer over usize labels
         let aset = ArgumentSet::new_with_labels(&universe);
         let ext: Vec<&Argument<usize>> = labels.iter().map(|l| aset.get_argument(l).unwrap()).collect();
-        let mut buf: Vec<u8> = vec![];
-        Iccma23Writer.write_single_extension(&mut buf, &ext).unwrap();
-        let text = String::from_utf8(buf).unwrap();
+        let mut sink = Sink::new(chunk);
+        Iccma23Writer.write_single_extension(&mut sink, &ext).unwrap();
+        let text = String::from_utf8(sink.buf).unwrap();
         let toks: Vec<String> = text.split_whitespace().map(|s| s.to_string()).collect();
         let nums: Vec<usize> = toks.iter().skip(1).map(|t| t.parse().unwrap_or(0)).collect();
         v.push(json!({"ev": "resp", "writer": "iccma", "labels": labels, "head": toks.first().cloned().unwrap_or_default(), "items": nums,
@@ -276,9 +302,9 @@ fn resp_events(rng: &mut StdRng, n: usize) -> Vec<String> {
         let slabels: Vec<String> = universe.iter().map(|l| format!("l{}", l)).collect();
         let sset = ArgumentSet::new_with_labels(&slabels);
         let sext: Vec<&Argument<String>> = labels.iter().map(|l| sset.get_argument(&format!("l{}", l)).unwrap()).collect();
-        let mut buf: Vec<u8> = vec![];
-        AspartixWriter.write_single_extension(&mut buf, &sext).unwrap();
-        let text = String::from_utf8(buf).unwrap();
+        let mut sink = Sink::new(chunk);
+        AspartixWriter.write_single_extension(&mut sink, &sext).unwrap();
+        let text = String::from_utf8(sink.buf).unwrap();
         let inner = text.trim_end_matches('\n');
         let ok_brackets = inner.starts_with('[') && inner.ends_with(']');
         let body = if ok_brackets { &inner[1..inner.len() - 1] } else { "" };
@@ -287,17 +313,19 @@ fn resp_events(rng: &mut StdRng, n: usize) -> Vec<String> {
             "nlines": text.matches('\n').count(), "endnl": text.ends_with('\n'),
             "exact": text == format!("[{}]\n", labels.iter().map(|l| format!("l{}", l)).collect::<Vec<String>>().join(","))}).to_string());
     }
-    for st in [true, false] {
-        for w in ["iccma", "apx"] {
-            let mut buf: Vec<u8> = vec![];
-            if w == "iccma" { Iccma23Writer.write_acceptance_status(&mut buf, st).unwrap() } else { AspartixWriter.write_acceptance_status(&mut buf, st).unwrap() }
-            v.push(json!({"ev": "status", "writer": w, "status": st, "text": String::from_utf8(buf).unwrap().replace('\n', "$")}).to_string());
+    for chunk in [0usize, 1, 2, 3] {
+        for st in [true, false] {
+            for w in ["iccma", "apx"] {
+                let mut buf = Sink::new(chunk);
+                if w == "iccma" { Iccma23Writer.write_acceptance_status(&mut buf, st).unwrap() } else { AspartixWriter.write_acceptance_status(&mut buf, st).unwrap() }
+                v.push(json!({"ev": "status", "writer": w, "status": st, "chunk": chunk, "text": String::from_utf8(buf.buf).unwrap().replace('\n', "$")}).to_string());
+            }
         }
-    }
-    for w in ["iccma", "apx"] {
-        let mut buf: Vec<u8> = vec![];
-        if w == "iccma" { Iccma23Writer.write_no_extension(&mut buf).unwrap() } else { AspartixWriter.write_no_extension(&mut buf).unwrap() }
-        v.push(json!({"ev": "noext", "writer": w, "text": String::from_utf8(buf).unwrap().replace('\n', "$")}).to_string());
+        for w in ["iccma", "apx"] {
+            let mut buf = Sink::new(chunk);
+            if w == "iccma" { Iccma23Writer.write_no_extension(&mut buf).unwrap() } else { AspartixWriter.write_no_extension(&mut buf).unwrap() }
+            v.push(json!({"ev": "noext", "writer": w, "chunk": chunk, "text": String::from_utf8(buf.buf).unwrap().replace('\n', "$")}).to_string());
+        }
     }
     v
 }
@@ -505,9 +533,10 @@ pub fn cmd_io(a: &Args) {
 /// write_framework then read: used by the store command for the C14 round trip
 pub fn roundtrip(af: &AAFramework<String>) -> Value {
     let r = catch_unwind(AssertUnwindSafe(|| {
-        let mut buf: Vec<u8> = vec![];
-        AspartixWriter.write_framework(af, &mut buf).unwrap();
-        let text = String::from_utf8(buf).unwrap();
+        // every third round trip goes through a sink that accepts 5 bytes per write call
+        let mut sink = Sink::new(if use_shared_sink() { 5 } else { 0 });
+        AspartixWriter.write_framework(af, &mut sink).unwrap();
+        let text = String::from_utf8(sink.buf).unwrap();
         let nlines = text.matches('\n').count();
         match read_apx(text.as_bytes()) {
             Ok(back) => {
